@@ -595,6 +595,11 @@ def run(ctx):
     c08_r2(ctx, r3b)
     r3c = ctx.rule("C05-R3c", "column computation: errors only at the cursor or the mark (shared with C08-R4)", floor=10)
     c08_r4(ctx, r3c)
+    # R8: an `as` cast that can change the value (usize -> isize, wider -> narrower) turns a checked number into one that
+    # later arithmetic was not guarded for (`-limit` with limit = isize::MIN): the cast inventory of C06-R1, run here too
+    from .c06 import run_r1 as c06_r1
+    r8 = ctx.rule("C05-R8", "range checks before lossy conversions; every lossy `as` cast is listed with its bound (shared with C06-R1)", floor=27)
+    c06_r1(ctx, r8)
     ctx.assume("library callees that are not in the classification table are assumed not to panic (counted in the evidence)")
     ctx.assume("wall-clock time, heap constants, allocator aborts and termination of Renumber::transfer on cyclic graphs are not decided")
     return "other", "no recursion; taint + guard rules for arithmetic and allocation; loop progress; panic-site inventory", {}
